@@ -160,6 +160,19 @@ Theorem C20_equal_subkeys_collision :
 Proof. exact equal_subkeys_collision. Qed.
 Print Assumptions C20_equal_subkeys_collision.
 
+(* PARTIAL (see KeyProofs.cross_acceptance_partial): the "exactly when byte-identical"
+   clause at the level of the subkeys; the link subkeys -> honoured/refused credentials
+   needs the credential pipeline model (C01/C02) and HMAC unforgeability *)
+Theorem C20_cross_acceptance_partial :
+  forall (st : Type) (hinit : st) (hupd : st -> bytes -> st) (hfin : st -> bytes),
+  (forall s a b, hupd (hupd s a) b = hupd s (a ++ b)) ->
+  forall k1 k2 : bytes, 32 <= length k1 -> 32 <= length k2 ->
+  (k1 = k2 -> create_subkeys st hinit hupd hfin k1 = create_subkeys st hinit hupd hfin k2) /\
+  (create_subkeys st hinit hupd hfin k1 = create_subkeys st hinit hupd hfin k2 ->
+   k1 = k2 \/ exists a b, a <> b /\ H st hinit hupd hfin a = H st hinit hupd hfin b).
+Proof. exact cross_acceptance_partial. Qed.
+Print Assumptions C20_cross_acceptance_partial.
+
 (* what the model takes from the source, pinned: a change in /repo changes these *)
 Theorem C20_source_facts :
   hkdf_max_rounds = 255%N /\ key_len_min_bytes = 32%N /\ key_len_max_bytes = 1024%N /\
